@@ -33,7 +33,7 @@ def _partition_case(rng, cls):
             ops.append(g.run_piece(T, p_next=0.3))
         if g.clk < T or rng.random() < 0.5:
             g.clk = T
-            ops.append(["until", T, g.fl(T)] if rng.random() < 0.7 or True else None)
+            ops.append(["until", T, g.fl(T)])
         if rd + 1 < rounds:
             for _ in range(rng.randint(1, 3)):
                 ops.append(g.sched(1, False, p_bad=0.02))
@@ -73,8 +73,6 @@ def _composition_cases(Tmax, with_next):
     n = 0
     for cls in ("ABM", "DEVS"):
         for script, evs in _SETS:
-            if cls == "DEVS":
-                evs = [e for e in evs]
             for T in range(1, Tmax + 1):
                 for parts in _compositions(T):
                     for style in range(1 << len(parts)):
